@@ -3,6 +3,7 @@ Driver code for the `ska lo` helper operations (C17, C18).
 -/
 import SkaModel.Impl.Skalo
 import SkaModel.Impl.SkaloDerep
+import SkaModel.Impl.SkaloPipe
 import SkaModel.DriverBase
 import SkaModel.DriverHist
 
@@ -44,6 +45,43 @@ def runLo (c : Case) : String × String :=
       (fun g => s!"{g.entry}:{g.exit}")
     let es := (ext.eraseDups.mergeSort (fun a b => decide (a ≤ b))).map toString
     (s!"kept={joinStr ks} ext={joinStr es}", "-")
+  | "lo_pipe" =>
+    let W := c.nat "w"
+    let k := c.nat "k"
+    let kg := k - 1
+    let a := arrOfTable W k (c.flag "rc") (c.get "table")
+    let n := a.names.length
+    let (mNum, mDen) := match (c.get "m").splitOn "/" with
+      | [x, y] => (x.toNat?.getD 0, y.toNat?.getD 1)
+      | _ => (0, 1)
+    let (g, col) := buildGraph W a
+    match identifyGoodKmers W kg g col with
+    | none => ("panic", "-")
+    | some (starts, ends) =>
+      if starts.isEmpty then ("no-entry", "-")
+      else
+        let gr := buildVariantGroups W kg g starts ends (c.nat "depth")
+        let fmtG := fun (gs : List ((Nat × Nat) × List Variant)) =>
+          let items := gs.map (fun kv =>
+            let vs := sortStrings (kv.2.map (fun (v : Variant) =>
+              s!"{strOf v.1}@{if v.2.isEmpty then "~" else String.intercalate "+" (v.2.map toString)}"))
+            s!"{strOf (skaloDecode W kv.1.1 kg)}>{strOf (skaloDecode W kv.1.2 kg)}:{String.intercalate "/" vs}")
+          let items := sortStrings items
+          if items.isEmpty then "~" else String.intercalate ";" items
+        let st := (starts.mergeSort (fun x y => decide (x ≤ y))).map toString
+        let head := s!"starts={joinStr st} sg={fmtG gr.snpGroups} ig={fmtG gr.indelGroups}"
+        let fmtR := fun (r : Option (List (List UInt8) × List IndelRec)) =>
+          match r with
+          | none => "panic"
+          | some (cols, recs) =>
+            let rs := recs.map (fun (x : IndelRec) =>
+              s!"{strOf x.ref}:{strOf x.alt}:{strOf x.before}:{strOf x.after}:{String.intercalate "|" x.calls}")
+            s!"cols={joinStr (sortStrings (cols.map strOf))} recs={joinStr rs}"
+        -- the arrival order of the groups must not matter: also run on the reversed lists
+        let rev : Groups := { snpGroups := gr.snpGroups.reverse, indelGroups := gr.indelGroups.reverse }
+        let r1 := analyse W kg n mNum mDen (c.nat "ik") col gr
+        let r2 := analyse W kg n mNum mDen (c.nat "ik") col rev
+        (s!"{head} {fmtR r1}", s!"{head} {fmtR r2}")
   | "lo_out" =>
     let genome := bytesOf (c.text "genome")
     let n := c.nat "n"
